@@ -13,7 +13,7 @@ import (
 func init() {
 	register(&Rule{
 		Name:     "UNUSEDBOUND",
-		Doc:      "every integer parameter whose name says it is a bound (…len, …length, …size, …limit, …depth, max…, …end, case-insensitive) of a function with a body is referenced by that body: an ignored bound means the callee scans or recurses without it",
+		Doc:      "every integer parameter whose name says it is a bound (…len, …length, …size, …limit, …depth, max…, …end, case-insensitive), and every parameter of type proto.WireType (the wire type read from the tag in front of the value), of a function with a body is referenced by that body: an ignored bound means the callee scans or recurses without it, an ignored wire type that it decodes the value without looking at how it was encoded (packed vs. unpacked)",
 		Configs:  "NP",
 		Floor:    map[string]int{"N": 15, "P": 15},
 		Controls: 1,
@@ -48,16 +48,22 @@ func runUnusedBound(rc *RuleCtx) {
 				})
 				for _, fl := range fd.Type.Params.List {
 					for _, id := range fl.Names {
-						if id.Name == "_" || !boundNameRe.MatchString(id.Name) {
+						if id.Name == "_" {
 							continue
 						}
 						o := info.Defs[id]
 						if o == nil {
 							continue
 						}
-						b, ok := o.Type().Underlying().(*types.Basic)
-						if !ok || b.Info()&types.IsInteger == 0 {
-							continue
+						isWire := strings.HasSuffix(typeShort(o.Type()), "proto.WireType")
+						if !isWire {
+							if !boundNameRe.MatchString(id.Name) {
+								continue
+							}
+							b, ok := o.Type().Underlying().(*types.Basic)
+							if !ok || b.Info()&types.IsInteger == 0 {
+								continue
+							}
 						}
 						rc.Examined++
 						good := used[o]
